@@ -45,7 +45,7 @@ def run(ctx):
                           request=dict(method=method, uri=hexs(uri), headers=[[n, hexs(v)] for n, v in headers], body=None)))
         meta.append((kind, method, path, rq, headers, vh, expect))
     nbase = 12 if ctx.quick else 150
-    for _ in range(nbase):
+    for it in range(nbase):
         method = rng.choice(["GET", "GET", "PUT", "DELETE", "HEAD"])
         key = gen_key(rng)[:60]
         vh = "my-bucket" if rng.chance(1, 2) else None
@@ -59,6 +59,11 @@ def run(ctx):
         date_hdr = rng.choice([[("date", "Tue, 27 Mar 2007 19:36:42 +0000")], [("x-amz-date", "Tue, 27 Mar 2007 21:20:26 +0000")],
                                [("date", "Tue, 27 Mar 2007 19:36:42 +0000"), ("x-amz-date", "Tue, 27 Mar 2007 21:20:26 +0000")]])
         other = rng.choice([[], [("content-type", "image/jpeg")], [("content-md5", "4gJE4saaMU4BqNR0kLY+lw=="), ("content-type", "text/plain")]])
+        if it < 4:
+            # characters of the resource syntax inside signed header values, together with signed sub-resources (a part copy from a version of the source)
+            q = [[("partNumber", "1"), ("uploadId", "u1")], [("acl", "")], [("versionId", "v1")], [("partNumber", "2"), ("uploadId", "u/1")]][it]
+            amz = [[("x-amz-copy-source", "src/a.bin?versionId=v1")], [("x-amz-meta-note", "ready?")], [("x-amz-meta-q", "a?b&c=d")], [("x-amz-copy-source", "src/k?versionId=2&x")]][it]
+
         headers = [("host", host)] + date_hdr + other + amz
         d = dict((n.lower(), v) for n, v in headers)
         date_val = "" if "x-amz-date" in d else d.get("date", "")
@@ -120,7 +125,7 @@ def run(ctx):
                 add("presigned:mut-empty-date-slot-other-expires", method, raw_path, q + [("AWSAccessKeyId", S.AK), ("Expires", str(exp + 5000)), ("Signature", sg3)], ph2, vh, "reject")
                 add("presigned:mut-expires", method, raw_path, [(k, str(exp + 1)) if k == "Expires" else (k, v) for k, v in pq], ph, vh, "reject")
                 add("presigned:mut-key", method, raw_path, [(k, S.AK[:-1] + "Z") if k == "AWSAccessKeyId" else (k, v) for k, v in pq], ph, vh, "reject")
-                add("presigned:mut-signature", method, raw_path, [(k, v[:-3] + "AA=") if k == "Signature" else (k, v) for k, v in pq], ph, vh, "reject")
+                add("presigned:mut-signature", method, raw_path, [(k, v[:-3] + ("AA=" if not v.endswith("AA=") else "BB=")) if k == "Signature" else (k, v) for k, v in pq], ph, vh, "reject")
                 add("presigned:mut-signature-empty", method, raw_path, [(k, "") if k == "Signature" else (k, v) for k, v in pq], ph, vh, "reject")
                 add("presigned:mut-path", method, raw_path + "y", pq, ph, vh, "reject")
                 add("presigned:dup-expires", method, raw_path, pq + [("Expires", str(exp))], ph, vh, "reject")
